@@ -36,6 +36,7 @@ class Info:
         self.bypass = 0
         self.bypass_in_recursion = False
         self.bypass_gw_is_end = False   # a bypass zone route whose gateway is the source/destination host itself
+        self.bypass_self_links = []     # ... and the links of that host's route to itself
         self.ambiguous = False
         self.vivaldi = 0
         self.sym_reversed = 0        # reversed copies of symmetrical declarations used
@@ -207,7 +208,7 @@ class Composer:
     def same_dijkstra_zone(self, a, b):
         return a != b and self.zone_of(a) == self.zone_of(b) and self.p.zones[self.zone_of(a)]["kind"] in ("dijkstra", "dijkstracache")
 
-    def route(self, a, b, info, mode="top", emulate=frozenset(), depth=0):
+    def route(self, a, b, info, mode="top", emulate=frozenset(), depth=0, side_top=None):
         """mode: 'top' (a query, or a sub-query SimGrid documents as a full route computation), 'up' (source -> gateway on the
         way up), 'down' (gateway -> destination). emulate=True reproduces the link order of a known deviation (segments spliced
         on the way up below the top zone come out reversed; a Dijkstra zone prepends its route to the list it is given) so that
@@ -223,10 +224,11 @@ class Composer:
         if depth == 0:
             info.lca_kind = p.zones[L]["kind"]
             info.up, info.down = nup, ndown
-        if depth > 0 and za != zb:
-            # the iterative descent of the implementation expects the gateway directly in the top zone of its side
-            g = b if mode == "up" else a if mode == "down" else None
-            if g is not None and self.zone_of(g) != L:
+        if depth > 0 and za != zb and mode in ("up", "down"):
+            # classification only: a level-by-level descent from the zone that named the gateway (side_top) needs the gateway
+            # directly in that zone (or next to the other endpoint)
+            g = b if mode == "up" else a
+            if self.zone_of(g) != side_top:
                 info.deep = True
         # 1. bypass
         bp = None
@@ -245,14 +247,22 @@ class Composer:
                     info.bypass_gw_is_end = True
                 l1, x1 = self.route(a, bp["gw_src"], info, "top", emulate, depth + 1)
                 l3, x3 = self.route(bp["gw_dst"], b, info, "top", emulate, depth + 1)
-                if "bypass-endpoint-loopback" in emulate:
-                    try:
-                        if bp["gw_src"] == a:
-                            l1, _, _, x1 = self.local(za, a, a, Info(), emulate)
-                        if bp["gw_dst"] == b:
-                            l3, _, _, x3 = self.local(zb, b, b, Info(), emulate)
-                    except NoRoute:
-                        pass
+                try:
+                    if bp["gw_src"] == a:
+                        sl, _, _, sx = self.local(za, a, a, Info(), emulate)
+                        info.bypass_self_links += sl
+                        if "bypass-endpoint-loopback" in emulate:
+                            l1, x1 = sl, sx
+                    if bp["gw_dst"] == b:
+                        sl, _, _, sx = self.local(zb, b, b, Info(), emulate)
+                        info.bypass_self_links += sl
+                        if "bypass-endpoint-loopback" in emulate:
+                            l3, x3 = sl, sx
+                except NoRoute:
+                    pass
+                dk = ("dijkstra", "dijkstracache")
+                if (self.zone_of(bp["gw_dst"]) == zb and p.zones[zb]["kind"] in dk) or (depth > 0 and self.zone_of(bp["gw_src"]) == za and p.zones[za]["kind"] in dk):
+                    info.dijkstra_prepend = True
                 links = l1 + p.forward(bp["links"])
                 zk = p.zones[zb]["kind"]
                 if depth == 0 and zk in ("dijkstra", "dijkstracache") and self.zone_of(bp["gw_dst"]) == zb:
@@ -283,14 +293,14 @@ class Composer:
         if A_s != L:
             if gw_s is None:
                 raise NoRoute("no source gateway for %s in the route of %s" % (A_s, L))
-            l1, x1 = self.route(a, gw_s, info, "up", emulate, depth + 1)
+            l1, x1 = self.route(a, gw_s, info, "up", emulate, depth + 1, A_s)
             out += l1
             extra += x1
         out += links
         if A_d != L:
             if gw_d is None:
                 raise NoRoute("no destination gateway for %s in the route of %s" % (A_d, L))
-            l3, x3 = self.route(gw_d, b, info, "down", emulate, depth + 1)
+            l3, x3 = self.route(gw_d, b, info, "down", emulate, depth + 1, A_d)
             out += l3
             extra += x3
         return out, extra
